@@ -293,6 +293,50 @@ impl Property for C02 {
                 return Case { tree, base: Base::Abs, shape: Shape::Plain, glob: normalize(&glob, true), follow };
             }
         }
+        if t.chance(20) {
+            // mid-component family: an invariant branch that spans a separator and ends *inside* a
+            // component, then a wildcard (`{a/b}*`, `<a/b:1>*`, `a{/b}*`): the walk may start at
+            // `a`, never at `a/b`
+            let deep: Vec<String> = tree
+                .nodes
+                .iter()
+                .map(|n| n.path.clone())
+                .filter(|p| p.contains('/') && !p.contains(RAW) && !p.contains('\\') && !p.contains('\n'))
+                .collect();
+            if !deep.is_empty() {
+                let d = t.pick(&deep);
+                let mut it = d.split('/');
+                let c1 = it.next().unwrap_or("a").to_string();
+                let c2 = it.next().unwrap_or("b").to_string();
+                if c1 != "." && c1 != ".." && c2 != "." && c2 != ".." {
+                    let n2 = c2.chars().count();
+                    let k: String = c2.chars().take(1 + t.below(n2)).collect();
+                    let mut tree = tree;
+                    for (extra, kind) in [(format!("{}/{}q", c1, k), Kind::File), (format!("{}/{}", c1, k), Kind::Dir), (format!("{}/{}/w", c1, k), Kind::File)] {
+                        if !tree.nodes.iter().any(|n| n.path == extra) && tree.nodes.iter().all(|n| n.kind == Kind::Dir || !extra.starts_with(&format!("{}/", n.path))) {
+                            tree.nodes.push(Node { path: extra, kind, unreadable: false });
+                        }
+                    }
+                    let inner = vec![Tok::lit(&c1), Tok::Sep, Tok::lit(&k)];
+                    let mut glob = match t.below(4) {
+                        0 => vec![Tok::Alt(vec![inner])],
+                        1 => vec![Tok::Rep { body: inner, lo: 1, hi: Some(1), spell: t.below(2) as u8 }],
+                        2 => vec![Tok::lit(&c1), Tok::Alt(vec![vec![Tok::Sep, Tok::lit(&k)]])],
+                        _ => vec![Tok::Alt(vec![inner.clone(), inner])],
+                    };
+                    glob.push(Tok::Zom { lazy: false });
+                    match t.below(3) {
+                        0 => {},
+                        1 => glob.push(Tok::Tree { lead: true, trail: false }),
+                        _ => {
+                            glob.push(Tok::Sep);
+                            glob.push(Tok::Zom { lazy: false });
+                        },
+                    }
+                    return Case { tree, base: Base::Abs, shape: Shape::Plain, glob: normalize(&glob, true), follow };
+                }
+            }
+        }
         Case { tree, base, shape, glob, follow }
     }
     fn directed(&self) -> Vec<Case> {
